@@ -9,7 +9,7 @@ import "sort"
 var archNames = []string{
 	"single0", "single65535", "singleRnd", "sparse", "arr4095", "arr4096", "bmp4097", "rnd10", "rnd30", "rnd50", "rnd90",
 	"everyOther", "full", "fullMinusFirst", "fullMinusLast", "fullMinusFew", "oneRun", "fewRuns", "manyShortRuns",
-	"runsTouchEdges", "wordEdges", "denseLow", "denseHigh", "twoValuesEdge", "arr4096runs", "tiny", "pow2card",
+	"runsTouchEdges", "wordEdges", "denseLow", "denseHigh", "twoValuesEdge", "arr4096runs", "tiny", "pow2card", "holedRun",
 }
 
 func genChunk(r *Rng, arch string) []IV {
@@ -120,6 +120,18 @@ func genChunk(r *Rng, arch string) []IV {
 	case "pow2card":
 		// exactly 2^k values (k = 11..16) as one run, a few runs or scattered values
 		return exactCardChunk(r, 1<<uint(11+r.Intn(6))).iv
+	case "holedRun":
+		// one interval with 1-3 interior values missing (array-sized or larger; the cheapest shapes in which two
+		// different chunks share cardinality, minimum and maximum)
+		w := []uint64{3, 10, 100, 1000, 4000, 4096, 4097, 20000}[r.Intn(8)] + r.Range(0, 3)
+		a := r.Range(0, 65535-w)
+		if r.Chance(0.2) {
+			a = []uint64{0, 65535 - w}[r.Intn(2)]
+		}
+		s.AddRange(a, a+w)
+		for i := 0; i < 1+r.Intn(3); i++ {
+			s.Remove(r.Range(a+1, a+w-1))
+		}
 	case "twoValuesEdge":
 		s.Add(edgeVal16(r))
 		s.Add(edgeVal16(r))
@@ -231,7 +243,7 @@ type GenOpts struct {
 	Keys      []uint64
 }
 
-var lightArch = []string{"single0", "single65535", "singleRnd", "sparse", "tiny", "oneRun", "fewRuns", "runsTouchEdges", "twoValuesEdge", "wordEdges", "manyShortRuns", "arr4096runs"}
+var lightArch = []string{"single0", "single65535", "singleRnd", "sparse", "tiny", "oneRun", "fewRuns", "runsTouchEdges", "twoValuesEdge", "wordEdges", "manyShortRuns", "arr4096runs", "holedRun"}
 var heavyArch = []string{"arr4095", "arr4096", "bmp4097", "rnd10", "rnd30", "rnd50", "rnd90", "everyOther", "full", "fullMinusFirst", "fullMinusLast", "fullMinusFew", "denseLow", "denseHigh", "manyShortRuns", "oneRun", "pow2card"}
 
 // genSet composes a model set from chunk archetypes.
